@@ -9,7 +9,7 @@ from common import cN, cbool, clist, cnat, copt
 
 HEADER = """From stdpp Require Import gmap.
 From Coq Require Import NArith String.
-From EKW Require Import Sched.Model Sched.Replay.
+From EKW Require Import Sched.Model Sched.Lit Sched.Replay.
 Local Open Scope N_scope.
 """
 
@@ -395,24 +395,24 @@ def c_gmap(items, fk, fv):
 
 def c_job(spec, key, none_ds=()):
     tasks = spec["tasks"]
-    ins = c_gmap([(k, sorted(set(map(tuple, t["ins"])))) for k, t in enumerate(tasks)], cN, lambda ds: c_gset(ds, c_ds) + " : gset ds")
-    nout = c_gmap([(k, t["nout"]) for k, t in enumerate(tasks)], cN, cN)
-    gpu = c_gset([k for k, t in enumerate(tasks) if t["gpu"]], cN)
-    ext = c_gset(sorted(set(map(tuple, spec["ext"]))), c_ds)
-    none = c_gset(sorted(none_ds), c_ds)
+    ins = "mNsD " + clist([(k, sorted(set(map(tuple, t["ins"])))) for k, t in enumerate(tasks)], lambda kv: f"({cN(kv[0])}, {clist(kv[1], c_ds)})")
+    nout = "mNN " + clist([(k, t["nout"]) for k, t in enumerate(tasks)], lambda kv: f"({cN(kv[0])}, {cN(kv[1])})")
+    gpu = "sN " + clist([k for k, t in enumerate(tasks) if t["gpu"]], cN)
+    ext = "sD " + clist(sorted(set(map(tuple, spec["ext"]))), c_ds)
+    none = "sD " + clist(sorted(none_ds), c_ds)
     return f"{{| j_ins := {ins}; j_nout := {nout}; j_gpu := {gpu}; j_ext := {ext}; j_none := {none} |}}"
 
 
 def c_env(spec):
     ws = spec["workers"]
-    return ("{| e_host := " + c_gmap([(i, w["host"]) for i, w in enumerate(ws)], cN, cN) +
-            "; e_gpu := " + c_gset([i for i, w in enumerate(ws) if w["gpu"]], cN) + " |}")
+    return ("{| e_host := mNN " + clist([(i, w["host"]) for i, w in enumerate(ws)], lambda kv: f"({cN(kv[0])}, {cN(kv[1])})") +
+            "; e_gpu := sN " + clist([i for i, w in enumerate(ws) if w["gpu"]], cN) + " |}")
 
 
 def c_label(l):
     k = l[0]
     if k == "assign":
-        return f"LAssign {cN(l[1])} {cN(l[2])} {c_gmap(sorted(l[3].items()), c_ds, cN)}"
+        return f"LAssign {cN(l[1])} {cN(l[2])} (mDN " + clist(sorted(l[3].items()), lambda kv: f"({c_ds(kv[0])}, {cN(kv[1])})") + ")"
     if k == "flush":
         return "LFlush"
     if k == "stray":
@@ -472,3 +472,111 @@ def c_case(res):
 
 
 CHECKER = "(fun c : job * env * list round * bool * list (ds * option ds) => let '(J, E, rs, ended, outs) := c in check_trace J E rs ended outs)"
+
+
+# ----------------------------------------------------------------------------- family runner
+SIGS = {
+    "C02": {"task-dispatched-twice", "dispatch-to-unknown-worker", "dispatch-to-busy-worker", "gpu-task-on-cpu-worker",
+            "dispatch-before-input-produced", "dispatch-without-input-on-host", "transmit-to-wrong-host", "transmit-without-task",
+            "task-never-dispatched", "harness-limit"},
+    "C04": {"purge-while-consumer-unfinished", "purge-before-requested-output-delivered", "purge-with-transfer-pending-from-host",
+            "purge-with-fetch-pending-from-host", "transmit-from-host-without-dataset", "transmit-from-host-being-purged",
+            "fetch-from-host-without-dataset", "fetch-from-host-being-purged", "transfer-source-lost-dataset", "fetch-source-lost-dataset",
+            "purged-dataset-needed-again"},
+    "C01": {"task-read-wrong-bytes", "shm-key-collision", "wrong-output-value", "requested-output-missing"},
+}
+REORDER_FINDING = "reordered-publications"   # open finding of C03: see known_findings.json
+
+
+def in_order(res):
+    return res["mode"] in ("fifo", "batchy")
+
+
+def post_checks(res):
+    """end-of-run oracles shared by the family; returns list of (signature, what)"""
+    cl = res["cluster"]
+    out = []
+    ntasks = len(res["spec"]["tasks"])
+    if res["outcome"] == "ok":
+        disp = {t for _, t in cl.dispatched}
+        if len(disp) != ntasks:
+            out.append(("task-never-dispatched", f"run returned but tasks {sorted(set(range(ntasks)) - disp)} were never dispatched"))
+        if cl.finished != set(range(ntasks)):
+            out.append(("premature-exit", f"run returned with tasks {sorted(set(range(ntasks)) - cl.finished)} unfinished"))
+        missing = [d for d in cl.ext if d not in cl.payload_delivered]
+        if missing:
+            out.append(("requested-output-missing", f"run returned without fetching {missing}"))
+        if cl.shutdown_calls != 1:
+            out.append(("shutdown-not-called-once", f"shutdown called {cl.shutdown_calls} times"))
+    else:
+        out.append((res["outcome"], res["detail"][:300]))
+        if cl.shutdown_calls < 1 and res["outcome"] == "raised":
+            out.append(("shutdown-not-called-once", "run raised without shutting executors down"))
+    return out
+
+
+def case_json(res):
+    return {"spec": res["spec"], "seed": res["seed"], "mode": res["mode"]}
+
+
+def run_family(ctx, res, pid, n, modes=("fifo", "batchy", "shuffle", "newest"), max_tasks=10, coq_every=1, gen=gen_spec, extra=None):
+    """generate n (spec, seed, mode) cases, run the real controller, apply the oracles of `pid`, replay in Coq"""
+    from common import coq_results, coq_print
+    rng = ctx.sub_rng("cases")
+    sigs = SIGS.get(pid, set())
+    terms, metas = [], []
+    for i in range(n):
+        spec = gen(rng, max_tasks=max_tasks)
+        mode = modes[i % len(modes)]
+        seed = rng.randrange(2**31)
+        r = run_case(spec, seed, mode)
+        res.evaluations += 1
+        res.count(f"mode:{mode}")
+        res.count(f"tasks:{len(spec['tasks'])}")
+        res.count(f"hosts:{len({w['host'] for w in spec['workers']})}")
+        res.count(f"outcome:{r['outcome']}")
+        nsteps = sum(len(rd["ctl"]) + len(rd["env"]) for rd in r["rounds"])
+        if len(spec["tasks"]) >= 2 and nsteps >= 6:
+            res.nontrivial_keys.add(json_key(spec, mode, seed))
+        cj = case_json(r)
+        problems = list(r["problems"]) + post_checks(r)
+        reorder_case = not in_order(r)
+        for sig, what in problems:
+            if pid == "C03" or sig in sigs:
+                if sig in ("premature-exit", "task-never-dispatched", "requested-output-missing", "spin", "deadlock") and reorder_case:
+                    sig2 = REORDER_FINDING   # known finding: completion inferred from the key-sorted last output
+                else:
+                    sig2 = sig
+                if pid != "C03" and sig2 == REORDER_FINDING:
+                    continue   # belongs to C03's finding, not to this property
+                res.fail(sig2, what, cj)
+        if extra:
+            extra(r, res, cj)
+        if len(res.samples) < 2 and nsteps >= 8:
+            res.samples.append({"spec": spec, "mode": mode, "first_rounds": [{k: v for k, v in rd.items()} for rd in r["rounds"][:3]]})
+        # the Coq replay applies to runs that did not die inside the harness
+        if i % coq_every == 0 and r["outcome"] in ("ok", "deadlock", "spin", "raised"):
+            terms.append(c_case(r))
+            metas.append(cj)
+    results, logs = coq_results(pid, HEADER, terms, CHECKER, shard=40, tag="trace")
+    res.corr_checked += len(results)
+    for ok, term, cj in zip(results, terms, metas):
+        if ok is not True:
+            why = ""
+            if ok is False:
+                why = coq_print(pid, HEADER, "let '(J, E, rs, ended, outs) := " + term + " in dbg_trace J E rs ended outs")[-700:]
+            res.disagree("Coq model of the controller rejects a trace of the real cascade.controller.impl.run: " + (why or (logs[0][-400:] if logs else "")), cj)
+            break
+    return res
+
+
+def json_key(spec, mode, seed):
+    import json
+    return json.dumps([spec, mode], sort_keys=True)
+
+
+def replay_case(case):
+    c = case.get("case", case)
+    r = run_case(c["spec"], c["seed"], c["mode"])
+    problems = list(r["problems"]) + post_checks(r)
+    return {"fails": bool(problems), "problems": problems[:5], "outcome": r["outcome"], "detail": r["detail"]}
